@@ -223,6 +223,8 @@ def generate(tier="quick"):
             res = ci.resolve(m)
             if res and res[0] == "func":
                 items.append(("setter", res[1].qual, ci.qual))
+    so = r.cls("queries._SetOperation")
+    items.append(("order", so.resolve("get_sql")[1].qual, so.qual))       # limit/offset of a set operation
     obs = parallel(_dispatch, items + [("setop", "", "")])
     return obs, {"functions": sorted({i[1] for i in items}), "closed_world": sorted({i[2] for i in items}),
                  "coverage_extra": {"exhaustive": True},
